@@ -268,13 +268,17 @@ Fixpoint p_or (fuel : nat) (ts : list stok) : option (sexpr * list stok) :=
                  end
         | x => x
         end in
-      let p_not (ts : list stok) : option (sexpr * list stok) :=
-        match ts with
-        | t :: r => if is_word t "NOT"
-                    then match p_cmp r with Some (e, r') => Some (SNot e, r') | None => None end   (* one NOT is all the generator nests without parentheses *)
-                    else p_cmp ts
-        | [] => None
+      let fix p_not_k (k : nat) (ts : list stok) : option (sexpr * list stok) :=
+        match k with
+        | O => None
+        | S k' => match ts with
+                  | t :: r => if is_word t "NOT"
+                              then match p_not_k k' r with Some (e, r') => Some (SNot e, r') | None => None end
+                              else p_cmp ts
+                  | [] => None
+                  end
         end in
+      let p_not (ts : list stok) : option (sexpr * list stok) := p_not_k (S (length ts)) ts in
       let fix and_tail (k : nat) (e : sexpr) (ts : list stok) : option (sexpr * list stok) :=
         match k with
         | O => None
